@@ -298,3 +298,96 @@ Proof.
         -- inversion Hm1; subst. repeat constructor; unfold locks_only_for; cbn; auto. congruence.
       * inv_all; repeat constructor; unfold locks_only_for; cbn; auto.
 Qed.
+
+(* ---------- single-asset deposits (C14) ---------- *)
+Lemma provide_single_spec w sender funds ls ss r pid u l s' msgs deposit :
+  aggregate_coins funds = Ok [deposit] ->
+  provide_liquidity w sender funds ls ss r pid u l = Ok (s', msgs) ->
+  exists p askc sim,
+    pool_find (w_pm w) pid = Ok p /\ deposits_enabled (p_status p) = true /\
+    (* refused on empty pools and on pools with more than two assets *)
+    existsb (fun c => amount_of c =? 0) (p_assets p) = false /\ List.length (p_assets p) = 2%nat /\
+    (* locking is only possible for the sender *)
+    (u <> None -> addr_or_default w r sender = sender) /\
+    find (fun c => negb (String.eqb (denom_of c) (denom_of deposit))) (p_assets p) = Some askc /\
+    query_simulation (w_pm w) (denom_of deposit, amount_of deposit / 2) (denom_of askc) pid = Ok sim /\
+    (* the only effect of this step: the buffer is set and ONE sub-message is emitted: swap floor(amount/2) to self *)
+    s' = pm_with_buffer (w_pm w) (Some
+           {| sb_receiver := addr_or_default w r sender;
+              sb_expected_offer := (denom_of deposit, bal (w_bank w) PM (denom_of deposit));
+              sb_expected_ask := (denom_of askc, ssub (bal (w_bank w) PM (denom_of askc)) (sc_protocol_fee sim + sc_burn_fee sim));
+              sb_offer_half := (denom_of deposit, amount_of deposit / 2);
+              sb_expected_ask_asset := (denom_of askc, sc_return sim);
+              sb_data := {| ld_swap_slip := ss; ld_liq_slip := ls; ld_pool := pid; ld_unlock := u; ld_lock_id := l |} |}) /\
+    msgs = [{| sm_msg := MWasm PM (WPm (PmSwap (denom_of askc) None ss None pid)) [(denom_of deposit, amount_of deposit / 2)];
+               sm_id := 1; sm_reply := RSuccess |}].
+Proof.
+  intros Ha. unfold provide_liquidity. intros H.
+  apply bind_ok in H. destruct H as [p [Hp H]].
+  apply bind_ok in H. destruct H as [[] [He H]]. apply ensure_ok in He.
+  rewrite Ha in H. cbn [bind] in H.
+  apply bind_ok in H. destruct H as [[] [_ H]].
+  apply bind_ok in H. destruct H as [[] [_ H]].
+  apply bind_ok in H. destruct H as [[] [Hu H]].
+  apply bind_ok in H. destruct H as [[] [Hz H]]. apply ensure_ok in Hz. apply negb_true_iff in Hz.
+  apply bind_ok in H. destruct H as [[] [Hl H]]. apply ensure_ok in Hl. apply Nat.eqb_eq in Hl.
+  apply bind_ok in H. destruct H as [askc [Hask H]]. apply of_option_ok in Hask.
+  apply bind_ok in H. destruct H as [sim [Hsim H]].
+  apply bind_ok in H. destruct H as [outgoing [Hout H]]. unfold cadd in Hout. apply chk_ok in Hout. destruct Hout as [-> _].
+  apply bind_ok in H. destruct H as [[] [_ H]]. inversion H; subst s' msgs; clear H.
+  exists p, askc, sim. repeat split; auto.
+  intros Hun. destruct u as [d|]; [|congruence]. apply ensure_ok in Hu. apply String.eqb_eq in Hu. exact Hu.
+Qed.
+
+(* the reply: only after the swap SUCCEEDED, only when the pool manager's balances are exactly what the swap must
+   have produced; it clears the buffer and deposits exactly the kept half plus the swap proceeds for the receiver *)
+Lemma pm_reply_spec w id s' msgs :
+  pm_reply w id = Ok (s', msgs) ->
+  id = 1 /\ exists b, pm_buffer (w_pm w) = Some b /\
+    bal (w_bank w) PM (denom_of (sb_expected_offer b)) = amount_of (sb_expected_offer b) /\
+    bal (w_bank w) PM (denom_of (sb_expected_ask b)) = amount_of (sb_expected_ask b) /\
+    s' = pm_with_buffer (w_pm w) None /\
+    msgs = [plain (MWasm PM (WPm (PmProvide (ld_liq_slip (sb_data b)) (ld_swap_slip (sb_data b)) (Some (sb_receiver b))
+                                              (ld_pool (sb_data b)) (ld_unlock (sb_data b)) (ld_lock_id (sb_data b))))
+                         [sb_offer_half b; sb_expected_ask_asset b])].
+Proof.
+  unfold pm_reply. destruct (id =? 1) eqn:E; [|discriminate]. intros H.
+  apply bind_ok in H. destruct H as [b [Hb H]]. apply of_option_ok in Hb.
+  apply bind_ok in H. destruct H as [[] [H1 H]]. apply ensure_ok in H1.
+  apply bind_ok in H. destruct H as [[] [H2 H]]. apply ensure_ok in H2. inversion H; subst.
+  split; [lia|]. exists b. repeat split; auto; lia.
+Qed.
+
+(* no other pool-manager message touches the buffer *)
+Lemma pm_execute_buffer_frame w sender funds m s' msgs :
+  pm_execute w sender funds m = Ok (s', msgs) ->
+  pm_buffer s' = pm_buffer (w_pm w) \/
+  (exists ls ss r pid u l deposit, m = PmProvide ls ss r pid u l /\ aggregate_coins funds = Ok [deposit]).
+Proof.
+  destruct m as [denoms decimals fees pt oid | ls ss r pid u l | ask bp ms r pid | pid | a | ops mr r ms | fc fm fee t];
+    cbn [pm_execute]; intros H.
+  - apply create_pool_shape in H. destruct H as (p & _ & _ & _ & _ & Hb & _). left. exact Hb.
+  - destruct (aggregate_coins funds) as [[|d0 [|d1 rest]]|e] eqn:Ea.
+    + exfalso. unfold provide_liquidity in H.
+      apply bind_ok in H. destruct H as [p [Hp H]].
+      apply bind_ok in H. destruct H as [[] [He H]]. rewrite Ea in H. cbn in H. discriminate.
+    + right. do 7 eexists. split; reflexivity.
+    + left. unfold provide_liquidity in H.
+      apply bind_ok in H. destruct H as [p [Hp H]].
+      apply bind_ok in H. destruct H as [[] [He H]]. rewrite Ea in H. cbn [bind] in H.
+      inv_all; reflexivity.
+    + unfold provide_liquidity in H. apply bind_ok in H. destruct H as [p [Hp H]].
+      apply bind_ok in H. destruct H as [[] [He H]]. rewrite Ea in H. discriminate.
+  - left. apply SwapProofs.swap_spec in H. destruct H as (p & offer & sc & _ & _ & _ & _ & Hps & _).
+    apply SwapProofs.perform_swap_spec in Hps. destruct Hps as (? & ? & ? & ? & ? & ? & ? & _ & _ & _ & _ & _ & _ & ->). reflexivity.
+  - left. apply withdraw_shape in H. destruct H as (p & a & _ & _ & ->). reflexivity.
+  - left. inv_all. reflexivity.
+  - left. apply SwapProofs.exec_ops_spec in H. destruct H as (lst & f & amount & out & fee_msgs & _ & _ & _ & _ & Hr & _).
+    clear - Hr. revert Hr. generalize (w_pm w) as s. generalize (so_in f, amount) as prev. generalize (@nil submsg) as fm0.
+    induction ops as [|o r0 IH]; intros fm0 prev s Hr.
+    + cbn in Hr. inversion Hr; subst. reflexivity.
+    + apply SwapProofs.route_loop_cons in Hr. destruct Hr as (s1 & sc & Hps & Hr).
+      rewrite (IH _ _ _ Hr).
+      apply SwapProofs.perform_swap_spec in Hps. destruct Hps as (? & ? & ? & ? & ? & ? & ? & _ & _ & _ & _ & _ & _ & ->). reflexivity.
+  - left. apply bind_ok in H. destruct H as [[] [_ H]]. apply update_config_shape in H. destruct H as (_ & _ & _ & _ & Hb & _). exact Hb.
+Qed.
